@@ -828,7 +828,7 @@ impl SentGen<'_> {
                 let sub = self.level(u, &c.level);
                 out.cmd = Some((used, Box::new(sub)));
             }
-            Node::Pure(_) | Node::Fail(_) => {}
+            Node::Pure(_) | Node::Fail(_) | Node::Any(_) => {}
             Node::Seq(xs) => {
                 for x in xs {
                     self.node(u, x, out, sink, words, pos_open);
